@@ -9,6 +9,7 @@ built-in - and every checkpoint written by calibrate() is observed.
 from __future__ import annotations
 
 import json
+import os
 import shutil
 import tempfile
 import threading
@@ -403,7 +404,11 @@ def _sample_wrapper(self, search_space, existing_points, existing_losses):
         out = _ORIG["sample"](self, search_space, existing_points, existing_losses)
     except Exception:
         if not isinstance(self, _Scripted):
-            rec.log({"e": "fault", "at": "sampler", "native": True})   # a built-in sampler raised by itself: a fault like any other
+            # a built-in sampler raised by itself: a fault like any other when it refuses a history with non-finite / overflowing
+            # losses; on an ordinary history it is an unexpected exception of the calibration
+            el = np.asarray(existing_losses, dtype=float)
+            excused = bool(el.size and (np.any(~np.isfinite(el)) or np.any(np.abs(el) > 1e30)))
+            rec.log({"e": "fault", "at": "sampler", "native": excused})
         raise
     if not isinstance(self, _Scripted):
         self._vk = k + 1          # (counted once the batch was really drawn; a seed reset puts the count back to zero)
@@ -587,8 +592,11 @@ def run_script(script: dict) -> dict:
     rec = Recorder({**script, "cfg": cfg})
     REC = rec
     base_threads = set(threading.enumerate())
-    folder = tempfile.mkdtemp(prefix="verif-ckpt-")
-    folder2 = tempfile.mkdtemp(prefix="verif-ckpt2-")      # explicit checkpoints may go to a folder other than the saving folder
+    top = tempfile.mkdtemp(prefix="verif-ckpt-")
+    top2 = tempfile.mkdtemp(prefix="verif-ckpt2-")         # explicit checkpoints may go to a folder other than the saving folder
+    nested = cfg.get("seed", 0) % 5 == 2                   # folders that do not exist yet, below parents that do not exist either
+    folder = os.path.join(top, "runs", "r1") if nested else top
+    folder2 = os.path.join(top2, "runs", "r2") if nested else top2
     as_arg = (lambda f: f)
     if cfg.get("seed", 0) % 2:                             # create_checkpoint / restore_from_checkpoint take str or os.PathLike
         from pathlib import Path as as_arg                 # (saving_folder is declared str: always given as str)
@@ -674,8 +682,8 @@ def run_script(script: dict) -> dict:
         if cal is not None:
             cleanup_threads(cal, base_threads)
         REC = None
-        shutil.rmtree(folder, ignore_errors=True)
-        shutil.rmtree(folder2, ignore_errors=True)
+        shutil.rmtree(top, ignore_errors=True)
+        shutil.rmtree(top2, ignore_errors=True)
     tcfg = {"lineup": cfg["lineup"], "alts": cfg["alts"], "kind": cfg["kind"], "E": cfg["E"], "N": cfg["N"],
             "convon": cfg["convon"], "verbose": cfg["verbose"], "saving": cfg["saving"], "modelevents": cfg["modelevents"]}
     return {"cfg": tcfg, "ev": rec.events, "script": script}
